@@ -324,7 +324,7 @@ namespace {
    }
 
    // Long member lists: positions stay equal to the index far beyond the handful of members the histories add.
-   void long_lists(int n)
+   void long_lists(int n, unsigned which = ~0u)
    {
       ipr::impl::Lexicon lex;
       ipr::impl::Translation_unit unit{ lex };
@@ -335,7 +335,7 @@ namespace {
       };
       auto params = [&](ipr::impl::Parameter_list& pl, const ipr::Region& home, std::size_t level, const char* what) {
          std::vector<const ipr::Parameter*> made;
-         for (int i = 0; i < n; ++i) made.push_back(pl.add_member(name(i), lex.int_type()));
+         for (int i = 0; i < n; ++i) { if (i % 1024 == 0) opt.kick(); made.push_back(pl.add_member(name(i), lex.int_type())); }
          for (int i = 0; i < n; ++i) {
             rep.count("transitions");
             const ipr::Parameter& p = *made[std::size_t(i)];
@@ -346,23 +346,23 @@ namespace {
          rep.count("states", n);
       };
       auto* m = lex.make_mapping(G, ipr::Mapping_level{ 2 });
-      params(m->inputs, static_cast<const ipr::Mapping&>(*m).parameters().region(), 2, "mapping");
+      if (which >> 0 & 1) params(m->inputs, static_cast<const ipr::Mapping&>(*m).parameters().region(), 2, "mapping");
       auto* l = lex.make_lambda(G, ipr::Mapping_level{ 1 });
-      params(l->inputs, static_cast<const ipr::Lambda&>(*l).parameters().region(), 1, "lambda");
+      if (which >> 1 & 1) params(l->inputs, static_cast<const ipr::Lambda&>(*l).parameters().region(), 1, "lambda");
       auto* rq = lex.make_requires(G, ipr::Mapping_level{ 3 });
-      params(rq->formals, static_cast<const ipr::Requires&>(*rq).parameters().region(), 3, "requires-expression");
+      if (which >> 2 & 1) params(rq->formals, static_cast<const ipr::Requires&>(*rq).parameters().region(), 3, "requires-expression");
       auto* fm = G.make_function_morphism(G, ipr::Mapping_level{ 0 });
-      params(fm->inputs, static_cast<const ipr::cxx_form::Morphism::Function&>(*fm).parameters().region(), 0, "function declarator");
+      if (which >> 3 & 1) params(fm->inputs, static_cast<const ipr::cxx_form::Morphism::Function&>(*fm).parameters().region(), 0, "function declarator");
       auto* e = lex.make_enum(G, ipr::Enum::Kind::Legacy);
       std::vector<const ipr::Enumerator*> ens;
-      for (int i = 0; i < n; ++i) ens.push_back(e->add_member(name(i)));
-      for (int i = 0; i < n; ++i) {
+      if (which >> 4 & 1) for (int i = 0; i < n; ++i) { if (i % 1024 == 0) opt.kick(); ens.push_back(e->add_member(name(i))); }
+      for (int i = 0; i < int(ens.size()); ++i) {
          rep.count("transitions");
          if (std::size_t(ens[std::size_t(i)]->position()) != std::size_t(i)) { bad("C12:enumerator:position", "an enumerator reports position " + std::to_string(std::size_t(ens[std::size_t(i)]->position())), i); break; }
          if (&ens[std::size_t(i)]->home_region() != &static_cast<const ipr::Enum&>(*e).region()) { bad("C12:enumerator:home-region", "an enumerator's home region is not the body of its enumeration", i); break; }
       }
       auto* c = lex.make_class(G);
-      const int nb = std::min(n, 2000);
+      const int nb = which >> 5 & 1 ? std::min(n, 2000) : 0;
       std::vector<const ipr::Base_type*> bs;
       for (int i = 0; i < nb; ++i) bs.push_back(c->declare_base(lex.get_pointer(i ? bs.back()->type() : static_cast<const ipr::Type&>(lex.int_type()))));
       for (int i = 0; i < nb; ++i) {
@@ -414,7 +414,9 @@ int main(int argc, char** argv)
    }
    const bool deep = opt.thorough();
    if (opt.shard == 0) long_lists(300);
-   if (opt.shard == 1 % opt.shards) long_lists(deep ? 70000 : 1100);
+   if (opt.shard == 1 % opt.shards) long_lists(1100);
+   // past 2^16 (a position kept in a narrow field wraps there); additions are quadratic in the library, so one list per shard
+   for (unsigned k = 0; k < 5; ++k) if (opt.shard == int((2 + k) % unsigned(opt.shards))) long_lists(deep ? 70000 : 66000, k == 4 ? 3u << 4 : 1u << k);
    const int depth_by_unit[3] = { deep ? 5 : 4, deep ? 4 : 3, deep ? 4 : 3 };
    for (int unit = 0; unit < 3; ++unit)
       for (int d = 0; d <= depth_by_unit[unit]; ++d) {
